@@ -423,6 +423,18 @@ impl<'buf, IO: Io> Connection<'_, 'buf, IO> {
         Ok(())
     }
 
+    /// Finish a packet that an earlier, cancelled operation left partially written, so that the
+    /// next packet does not start in the middle of it.
+    pub(super) async fn finish_partial_outbound(&mut self) -> Result<(), Error<IO::Error>> {
+        while let Some(step) = self.session.data.outbound.next_step() {
+            if !step.is_in_progress() {
+                break;
+            }
+            self.perform_outbound_step(step, Instant::now()).await?;
+        }
+        Ok(())
+    }
+
     pub(super) async fn flush_outbound(&mut self) -> Result<(), Error<IO::Error>> {
         loop {
             self.maybe_queue_pingreq(Instant::now())?;
